@@ -310,6 +310,7 @@ MUST_FIRE += [
     ("m138", ["C11"], ["B3"], rep1(S + "tomography.py", "        if qubits is None or not full_hilbert_space:\n            return expectation_values", "        if qubits is None or not full_hilbert_space or len(qubits) == self.readout_info.total_num_qubits:\n            return expectation_values"), "embedding skipped for a permuted full-length qubit list"),
     ("m139", ["C14"], ["K4"], rep1(S + "stabilizer.py", "        content = \"','\".join(self.to_list())", "        content = \"','\".join(pauli.lstrip(\"+-\") for pauli in self.to_list())"), "printed form drops the signs"),
     ("m140", ["C16"], ["E1"], rep1(S + "find_local_clifford_layer.py", "    combinations = np.array([i for i in itertools.product([0, 1], repeat=rank)], dtype=np.int8)", "    combinations = np.array(list(itertools.product([0, 1], repeat=rank)))"), "untyped combination table: float64 when the kernel is empty"),
+    ("m141", ["C02", "C07"], ["W16"], rep1(S + "stabilizer_circuits.py", "def compress_preparation_circuit(\n        circuit: QuantumCircuit,\n        connectivity:", "def compress_preparation_circuit(\n        circuit: QuantumCircuit,\n        validate: bool = False,\n        connectivity:"), "parameter inserted in front of connectivity: documented positional calls bind elsewhere"),
     ("m95", ["C19"], ["K12"], rep1(S + "graph.py", "    def compress(self) -> int:", "    def compress(self) -> int:\n        if getattr(self, \"_id\", None) is not None:\n            return self._id\n        self._id = self._compress()\n        return self._id\n\n    def _compress(self) -> int:"), "graph id remembered by the object and never invalidated"),
     ("m72", ["C13"], ["A3"], rep1(S + "circuit_lookup.py", "result.circuits = [circuit.copy() for circuit in self.circuits]", "result.circuits = list(self.circuits)"), "fresh list of the cached circuits"),
 ]
